@@ -957,6 +957,7 @@ def correspond(ctx):
         stream_neutralize(ctx, pool, programs)
         stream_neutralize_exact(ctx, pool, programs)
         stream_charges(ctx, pool, programs)
+        stream_resonance(ctx, pool, programs)
         if not ctx.quick:
             stream_tiny(ctx, programs)
     relational(ctx, pool, programs)
@@ -1483,6 +1484,51 @@ def stream_charges(ctx, pool, programs):
                 ctx.sample({'stream': 'CHG', 'molecule': lab, 'changed': real[1], 'agree': real == model})
         if real != model:
             disagree(ctx, 'CHG', lab, line, real, model)
+
+
+def real_resonance(mol):
+    """slot order (= pop order) of the `rads` / `entries` sets of the real `__entries()`, snapshot, real `fix_resonance`."""
+    try:
+        entries, _exits, rads, *_ = mol._Resonance__entries()
+    except Exception as e:
+        return None, None, None, 'entries:' + exc_name(e)
+    rad_order, ent_order = list(rads), list(entries)
+    snap = lmol_ints(mol)
+    try:
+        r = mol.fix_resonance(logging=True, _fix_stereo=False)
+    except Exception as e:
+        return snap, rad_order, ent_order, exc_name(e)
+    return snap, rad_order, ent_order, ('ok', sorted(r), wire.mol_to_ints(mol))
+
+
+def stream_resonance(ctx, pool, programs):
+    programs.add('Resonance.fix_resonance')
+    reqs = []
+    for lab, mol, _f, _h in pool:
+        if len(mol) > 60:
+            continue
+        c = mol.copy()
+        snap, ro, eo, real = real_resonance(c)
+        if snap is None:
+            ctx.dist('RES:' + real)
+            continue
+        reqs.append((lab, 'RES ' + ' '.join(map(str, snap + L(ro) + L(eo))), real, bool(ro) or bool(eo)))
+    resps = core.run_driver('C14', [r[1] for r in reqs])
+    shown = 0
+    for (lab, line, real, cand), resp in zip(reqs, resps):
+        if resp.startswith('ok'):
+            _, hs, molw = [x.strip() for x in resp.split('|')]
+            model = ('ok', sorted(int(x) for x in hs.split()), [int(x) for x in molw.split()])
+        else:
+            model = resp
+        fired = isinstance(real, tuple) and bool(real[1])
+        ctx.count(('RES', line), nontrivial=fired or cand)
+        ctx.dist('RES:changed' if fired else 'RES:candidates-no-path' if cand else 'RES:nothing' if isinstance(real, tuple) else 'RES:' + str(real))
+        if fired and shown < 2:
+            shown += 1
+            ctx.sample({'stream': 'RES', 'molecule': lab, 'changed': real[1], 'agree': real == model})
+        if real != model:
+            disagree(ctx, 'RES', lab, line, real, model)
 
 
 def real_neutralize_first(mol, keep_charge):
